@@ -11,6 +11,8 @@ import (
 
 	"github.com/Masterminds/semver/v3"
 
+	"github.com/go-task/task/v3/errors"
+	"github.com/go-task/task/v3/internal/experiments"
 	zz "github.com/go-task/task/v3/internal/zzsym"
 	"github.com/go-task/task/v3/taskfile/ast"
 )
@@ -194,6 +196,10 @@ func ZZ_C09_NodeResolve() {
 	r1, e1 := n1.ResolveDir(rel)
 	r2, e2 := n2.ResolveDir(rel)
 	zz.Assert(r1 == r2 && (e1 == nil) == (e2 == nil), "same-include-dir-whichever-include-created-the-node")
+	// ... and it is the path relative to the directory of the including Taskfile (for an
+	// include without dir: that directory itself)
+	wantDir := map[string]string{"./work": "/p/shared/work", "tool.yml": "/p/shared/tool.yml", "../x": "/p/x", "": "/p/shared"}[rel]
+	zz.Assert(e1 == nil && r1 == wantDir, "include-paths-are-relative-to-the-including-taskfile")
 	p1, f1 := n1.ResolveEntrypoint(rel)
 	p2, f2 := n2.ResolveEntrypoint(rel)
 	zz.Assert(p1 == p2 && (f1 == nil) == (f2 == nil), "same-include-location-whichever-include-created-the-node")
@@ -284,3 +290,79 @@ func ZZ_C20_HTTPNodeOffline() {
 //
 //gosmt:stub github.com/go-task/task/v3/internal/execext.ExpandLiteral
 func zzExpandLiteralIdentity(s string) (string, error) { return s, nil }
+
+// ZZ_C20_ErrorClassThroughIncludes: a remote Taskfile that may not be used (not approved: 104,
+// not in the cache while offline: 106) is usually reached through includes:. Whatever the
+// nesting depth, the error the reader returns is still the documented class for the code
+// that picks the exit status (cmd/task main() asserts errors.TaskError on it).
+func ZZ_C20_ErrorClassThroughIncludes() {
+	depth := 1 + zz.Choose("include_depth", 2)
+	notTrusted := zz.Bool("contents_not_approved")
+	var refusal error = &errors.TaskfileCacheNotFoundError{URI: "https://h/remote.yml"}
+	want := errors.CodeTaskfileCacheNotFound
+	if notTrusted {
+		refusal = &errors.TaskfileNotTrustedError{URI: "https://h/remote.yml"}
+		want = errors.CodeTaskfileNotTrusted
+	}
+	if zz.Native() {
+		// the real reader over real files and a local server: the remote file is unapproved
+		// (the prompt is declined) or absent from the cache while offline
+		experiments.RemoteTaskfiles = experiments.Experiment{Name: "REMOTE_TASKFILES", AllowedValues: []int{1}, Value: 1}
+		srv := httptest.NewServer(http.HandlerFunc(func(w http.ResponseWriter, r *http.Request) {
+			w.Header().Set("Content-Type", "text/yaml")
+			fmt.Fprint(w, "version: '3'\ntasks:\n  t: {cmds: [echo remote]}\n")
+		}))
+		defer srv.Close()
+		dir, _ := os.MkdirTemp("", "zzc20inc")
+		defer os.RemoveAll(dir)
+		inc := "includes:\n  n: " + srv.URL + "/remote.yml\n"
+		if depth == 1 {
+			os.WriteFile(filepath.Join(dir, "Taskfile.yml"), []byte("version: '3'\n"+inc), 0o644)
+		} else {
+			os.WriteFile(filepath.Join(dir, "Taskfile.yml"), []byte("version: '3'\nincludes:\n  n: ./mid.yml\n"), 0o644)
+			os.WriteFile(filepath.Join(dir, "mid.yml"), []byte("version: '3'\n"+inc), 0o644)
+		}
+		node, nerr := NewRootNode(filepath.Join(dir, "Taskfile.yml"), dir, true, 0)
+		if nerr != nil {
+			fmt.Println("ZZ-NOTE root node:", nerr)
+			return
+		}
+		r := NewReader(WithInsecure(true), WithTempDir(filepath.Join(dir, ".task")), WithOffline(!notTrusted),
+			WithPromptFunc(func(string) error { return fmt.Errorf("declined") }))
+		_, err := r.Read(context.Background(), node)
+		te, ok := err.(errors.TaskError)
+		fmt.Printf("ZZ-NOTE err=%T %v\n", err, err)
+		zz.Assert(err != nil && ok && te.Code() == want, "refused-remote-taskfile-keeps-its-error-class-through-includes")
+		return
+	}
+	ver := &semver.Version{}
+	mk := func(loc, next string) func() *ast.Taskfile {
+		return func() *ast.Taskfile {
+			tf := zzTaskfileWith(ver, "t", loc)
+			tf.Includes.Set("n", &ast.Include{Namespace: "n", Taskfile: next})
+			return tf
+		}
+	}
+	zzReadErrors = map[string]error{"https://h/remote.yml": refusal}
+	if depth == 1 {
+		zzASTs = map[string]func() *ast.Taskfile{"/p/Taskfile.yml": mk("/p/Taskfile.yml", "https://h/remote.yml")}
+	} else {
+		zzASTs = map[string]func() *ast.Taskfile{
+			"/p/Taskfile.yml": mk("/p/Taskfile.yml", "/p/mid.yml"),
+			"/p/mid.yml":      mk("/p/mid.yml", "https://h/remote.yml"),
+		}
+	}
+	_, err := NewReader().Read(context.Background(), &zzFileNode{BaseNode: NewBaseNode(""), loc: "/p/Taskfile.yml"})
+	zzReadErrors = nil
+	te, ok := err.(errors.TaskError)
+	zz.Assert(err != nil && ok && te.Code() == want, "refused-remote-taskfile-keeps-its-error-class-through-includes")
+	if zz.Twin() {
+		zz.Assert(false, "twin")
+	}
+	zz.Reach("end")
+}
+
+// messages show paths relative to the working directory: not the subject here
+//
+//gosmt:stub github.com/go-task/task/v3/internal/filepathext.TryAbsToRel
+func zzTryAbsToRelIdentity(abs string) string { return abs }
